@@ -40,6 +40,10 @@ def sites(b):
         m = c.callee.rsplit("::", 1)[-1]
         if (c.callee.startswith("std::option::Option::<T>::") or c.callee.startswith("std::result::Result::<T, E>::")) and m in UNWRAPS:
             t = short_ty(c.term.get("arg_tys", ["?"])[0])
+            # a downcast carried through Option::map + transpose is the same obligation as the direct one
+            m2 = re.fullmatch(r"Result<Option<(.*)>, variable::Variable>", t)
+            if m2:
+                t = "Result<%s, variable::Variable>" % m2.group(1)
             out.append(("unwrap %s" % t, c.line, c.exp))     # unwrap / expect / unwrap_err: one signature
         elif is_panic_call(c):
             # one panic per call; collapse formatting differences; keep the macro that produced it
